@@ -17,7 +17,7 @@ ASSUMPTIONS = ["reference optimum accepted only with a certificate: prox-gradien
                "clip(soft-threshold) is the exact prox of lambda*||x||_1 + box indicator (separable)"]
 N = {"quick": 130, "thorough": 3200}
 CASE_TIMEOUT = {"quick": 400, "thorough": 900}
-WALL_BUDGET = {"quick": 1500, "thorough": 6 * 3600}
+WALL_BUDGET = {"quick": 3600, "thorough": 8 * 3600}
 NSAMPLES = 4
 
 PINNED = [
